@@ -4,6 +4,7 @@
 package mgrsim
 
 import (
+	"os"
 	"encoding/json"
 	"fmt"
 	"math/rand/v2"
@@ -211,8 +212,10 @@ func Gen(prop, tier string, seed, run uint64) Plan {
 		// the race detector is the oracle; probes would add happens-before edges
 		p.NoOracle = true
 		p.Knobs.NumCPU = 4
-		// real socket, real timing: only in runs the determinism probe does not use
-		p.Loopback = run%7 == 3 || run%7 == 5
+		// real socket, real timing, and pkappa2 closes the connection's descriptor
+		// twice (DESIGN §8.4), which can close any other descriptor of the process:
+		// exploration only, not part of the registered check
+		p.Loopback = os.Getenv("VERIF_LOOPBACK") != "" && (run%7 == 3 || run%7 == 5)
 	}
 	id := 0
 	add := func(o Op) {
